@@ -44,6 +44,8 @@ MapStr = _Ty('MapStr')
 DictStrObj = _Ty('DictStrObj')
 DictStrStr = _Ty('DictStrStr')
 Callback = _Ty('Callback')
+Conn = _Ty('Conn')                # sqlite3 connection of the named store class (pyvc/sqlmodel.py)
+Table = _Ty('Table')              # abstract table state
 TupleObj = _Ty('TupleObj')        # tuple of arbitrary objects, symbolic length
 ListObj = _Ty('ListObj')
 
@@ -129,3 +131,10 @@ def rep(e, n):
 
 def event_sort(name, kind):
     pass
+
+
+def requires(*a, **k):
+    pass
+
+
+ensures = modifies = raises = propagates = decreases = invariant = trigger = use = check = hint = partial = requires
